@@ -76,7 +76,11 @@ impl FromStr for Decimal {
       };
 
       Ok(Self {
-        value: integer * 10u128.pow(u32::from(scale)) + decimal,
+        value: 10u128
+          .checked_pow(u32::from(scale))
+          .and_then(|magnitude| integer.checked_mul(magnitude))
+          .and_then(|value| value.checked_add(decimal))
+          .context("amount out of range")?,
         scale,
       })
     } else {
